@@ -30,6 +30,20 @@ KILL = 'printf %s "$1"; echo "$3" >> "$4"; kill -"$2" $$'
 NAMES_BAD = ['', '.', '..', 'a/b', '/abs', 'x/', 'nu\0l', '\0', '../up', './x']
 NAMES_GOOD = ['t', 'task', 'a', 'A', 'b', 'stdout', 'stderr', '...', ' ', 'a b', "it's", '-n', '~', '*',
               'tâche', '日本', 'x\ny', 'a.b', '.hidden', 'R', 'a\\b', '$HOME', 'café olé']
+# groups of DISTINCT names that some normalisation would identify (unicode normal forms, compatibility
+# characters, case, trailing dots / spaces, zero-width joiner, no-break space): different tasks, different
+# directories, each holding its own output
+VARIANT_GROUPS = [
+    ['caf\u00e9', 'cafe\u0301'],                      # NFC / NFD
+    ['\ufb01le', 'file', 'File', 'FILE'],              # NFKC ligature, case
+    ['t', 't.', 't ', ' t', 't..', 'T'],
+    ['ab', 'a\u200db', 'a\u200cb', 'a\u00adb'],       # zero-width joiner / non-joiner, soft hyphen
+    ['a b', 'a\u00a0b', 'a  b', 'a\tb'],               # no-break space, two spaces, tab
+    ['\u212b', '\u00c5', 'A\u030a'],                  # Angstrom sign, A with ring, decomposed
+    ['x\u0323\u0307', 'x\u0307\u0323'],              # combining marks in two orders
+    ['run', 'run.', 'Run', 'run\u200b'],               # zero-width space
+]
+
 TEXTS = ['', 'a', 'out', 'two words', "it's", 'q"uote', 'line\n', 'a\nb\n', 'été', '$x `y`', '\\n', '%s',
          '-e', '  ', '\t', 'x' * 40]
 
@@ -92,6 +106,12 @@ def gen_cases(ctx):
         {'mode': 'direct', 'tasks': [{'name': 'n' * 300, 'cmds': [ok]}]},
         {'mode': 'direct', 'tasks': [{'name': 'stdout', 'cmds': [ok]}, {'name': 'stderr', 'cmds': [ok]}]},
     ]
+    for group in VARIANT_GROUPS:
+        # first task succeeds, the next one fails, a third one succeeds: nobody may see the other's output
+        specs = [[['sh', f'out of {k}', f'err of {k}', 0], ['sh', f'more of {k}', '', 0 if k != 1 else 3],
+                  ['sh', 'late', 'late', 0]] for k in range(len(group))]
+        cases.append({'mode': 'direct', 'tasks': [{'name': n, 'cmds': c} for n, c in zip(group, specs)]})
+        cases.append({'mode': 'sched', 'tasks': [{'name': n, 'cmds': c} for n, c in zip(group[::-1], specs)]})
     for name in NAMES_BAD:
         cases.append({'mode': 'direct', 'tasks': [{'name': name, 'cmds': [ok, ok]}]})
     # exhaustive small: failure kind x position for lists of 1..3 commands
@@ -121,6 +141,13 @@ def gen_cases(ctx):
             if mode == 'direct' and names and rng.random() < 0.15:
                 name = rng.choice(names)      # same task name run twice
             names.append(name)
+        if rng.random() < 0.2:
+            # equivalent-looking names side by side in one output root, each with its own commands
+            group = rng.choice(VARIANT_GROUPS)
+            extra = rng.sample(group, rng.randint(2, min(3, len(group))))
+            names = [n for n in names if n not in extra] + extra
+            rng.shuffle(names)
+            ctx.count('cases_with_name_variants')
         cases.append({'mode': mode, 'tasks': [gen_task(rng, name) for name in names]})
     ctx.count('random', nrand)
     return cases
